@@ -665,6 +665,10 @@ pub fn generate(prop: &str, thorough: bool, seed: u64, idx: u64) -> Sc {
     // rarely: nothing but a deep, fully unwound recursion (thousands of live frames)
     let deep: Option<u64> = if flavour == "c18" && cfg.chance(1, 300) { Some(*cfg.pick(&[300u64, 1200, 4200])) } else { None };
 
+    // rarely: a long loop that takes two different jumps per iteration (nothing collapses), so that the trace grows
+    // beyond 4096 entries without a call or return in between
+    let long_alt: Option<u64> = if deep.is_none() && (flavour == "c18" || flavour == "c20") && cfg.chance(1, 400) { Some(*cfg.pick(&[2100u64, 2600])) } else { None };
+
     // ---- program ----
     let mut prng = rng.fork("program");
     let mut a = CodeAssembler::new(64).unwrap();
@@ -714,7 +718,18 @@ pub fn generate(prop: &str, thorough: bool, seed: u64, idx: u64) -> Sc {
             g.a.set_label(&mut done)?;
             g.a.nop()?;
         }
-        for _ in 0..(if deep.is_some() { 1 } else { main_items }) {
+        if let Some(n) = long_alt {
+            let mut l = g.a.create_label();
+            let mut a_lbl = g.a.create_label();
+            g.a.mov(r12, n)?;
+            g.a.set_label(&mut l)?;
+            g.a.jmp(a_lbl)?;
+            g.a.int3()?;
+            g.a.set_label(&mut a_lbl)?;
+            g.a.dec(r12)?;
+            g.a.jne(l)?;
+        }
+        for _ in 0..(if deep.is_some() || long_alt.is_some() { 1 } else { main_items }) {
             g.item(0, None)?;
         }
         match ending {
@@ -1006,7 +1021,7 @@ pub fn generate(prop: &str, thorough: bool, seed: u64, idx: u64) -> Sc {
         cuts,
         rng_a: rng.fork("rng_a").next(),
         rng_b: rng.fork("rng_b").next(),
-        max_steps: if let Some(n) = deep { 6 * n + 400 } else if thorough { 6000 } else { 3000 },
+        max_steps: if let Some(n) = deep { 6 * n + 400 } else if let Some(n) = long_alt { 3 * n + 600 } else if thorough { 6000 } else { 3000 },
         err_budget: 1 + sr.below(4) as u32,
         builtin_exit,
         ending: ending.to_string(),
